@@ -8,6 +8,7 @@ import numpy as np
 from astropy import units as u
 from astropy.coordinates import Angle, Longitude
 from astropy.time.utils import two_sum, two_product
+from astropy.utils.compat import COPY_IF_NEEDED
 
 
 __all__ = ["Phase", "FractionalPhase"]
@@ -248,7 +249,7 @@ class Phase(Angle):
                 phase1 = phase1.view(cls)
             return phase1.copy() if copy else phase1
 
-        phase1 = Angle(phase1, cls._unit, copy=False)
+        phase1 = Angle(phase1, cls._unit, copy=COPY_IF_NEEDED)
 
         if phase2 is not None:
             if isinstance(phase2, Phase):
@@ -257,7 +258,7 @@ class Phase(Angle):
                     phase2 = phase2.view(cls)
                 return phase2
 
-            phase2 = Angle(phase2, cls._unit, copy=False)
+            phase2 = Angle(phase2, cls._unit, copy=COPY_IF_NEEDED)
 
         return cls.from_angles(phase1, phase2)
 
@@ -734,7 +735,7 @@ class Phase(Angle):
         ) and basic_phase_out:
             try:
                 other = u.Quantity(
-                    inputs[1 - i_self], u.dimensionless_unscaled, copy=False
+                    inputs[1 - i_self], u.dimensionless_unscaled, copy=COPY_IF_NEEDED
                 ).value
                 if function is np.multiply:
                     return self.from_angles(
@@ -790,8 +791,8 @@ class Phase(Angle):
             # Go via view to avoid having to deal with imaginary.
             v = self.view(np.ndarray)
             return self.from_angles(
-                u.Quantity(v["int"], u.cycle, copy=False),
-                u.Quantity(v["frac"], u.cycle, copy=False),
+                u.Quantity(v["int"], u.cycle, copy=COPY_IF_NEEDED),
+                u.Quantity(v["frac"], u.cycle, copy=COPY_IF_NEEDED),
                 factor=np.sign(v["int"] + v["frac"]),
                 out=phase_out,
             )
@@ -805,7 +806,7 @@ class Phase(Angle):
 
         elif function is np.exp and basic and self.imaginary:
             # Avoid dimensionless_angles, but still get Quantity out.
-            exponent = u.Quantity(self.frac.to_value(u.radian), copy=False)
+            exponent = u.Quantity(self.frac.to_value(u.radian), copy=COPY_IF_NEEDED)
             return function(exponent, **kwargs)
 
         # Fall-back: treat Phase as a simple Quantity.
